@@ -40,17 +40,28 @@
        definition, does not match `lorem...`, is not an undocumented parent;
      element copies + group copies of the unrolled statement within the repeat budget.
 
+   C01_expand_implicit_attributes: every element carries the class / id it was written with, at
+   chunk level.  Reading the chunks in order ([open_tags] of [xread]: a chunk `<name` opens a
+   tag, every later chunk up to the first one ending with `>` is its attribute text), the open
+   tags are, in document order, the elements of [idenote] by name, and their attribute text is
+   [sh_attr_text c t] for the shorthand t written on the element ([unrollS]: the same marks
+   labelled `.cls` / `#id` / nothing, unrolled the same way): the text AttrProofs.attr_out_spec
+   (C03's decision table) prescribes for that attribute -- ` class="cls"` / ` id="x"` under the
+   default tables and quotes (C01_implicit_attr_text_default).  Extra domain: the two written
+   forms of every value are free of line breaks and of '>' ([ivalue_fine_c]; decidable; it
+   constrains the attribute-name / value-prefix table entries for class and id, nothing else).
+
    _partial w.r.t. the sentence: ONE class or id shorthand per element (no `.a.b`, no `[attr]`
-   blocks, no `{text}`); that the element carries its attribute is stated at tree level
-   (C01_implicit_carries_attribute_partial: the formatter's input node has the attribute), not yet
-   at chunk level. *)
+   blocks, no `{text}`). *)
 From Coq Require Import String.
 From Emmet Require Import lib.Base lib.StrLit model.MarkupTokenizer model.MarkupParser model.MarkupConvert
      model.MarkupResolve model.OutStream model.FormatHtml model.FormatIndent model.MarkupExpand
      gen.GenMarkupSnippets gen.GenImplicit
      proofs.ParserSpine proofs.TokenizeRender proofs.ConvertProofs proofs.HtmlEvents
      proofs.ExpandTree proofs.ExpandRepeat proofs.ExpandGroupsTok proofs.ExpandGroups
-     proofs.ImplicitProofs proofs.ImplicitSpec proofs.ExpandImplicit proofs.ExpandImplicitTok proofs.ExpandImplicitStr.
+     proofs.AttrProofs proofs.FormatAttrChunks
+     proofs.ImplicitProofs proofs.ImplicitSpec proofs.ExpandImplicit proofs.ExpandImplicitTok proofs.ExpandImplicitStr
+     proofs.ExpandImplicitAttr.
 
 Theorem C01_expand_tree_implicit :
   forall (x : xconfig) (xs : istmt),
@@ -62,6 +73,29 @@ Theorem C01_expand_tree_implicit :
             (idenote (mc_inline (xc_m x)) (mc_context_name (xc_m x)) xs).
 Proof. exact expand_tree_implicit. Qed.
 Print Assumptions C01_expand_tree_implicit.
+
+(* every element carries its class / id attribute: the open tags of the output, read off the chunks *)
+Theorem C01_expand_implicit_attributes :
+  forall (x : xconfig) (xs : istmt),
+    impl_attr_ok x xs = true ->
+    exists st,
+      expand_markup x (render4 xs) = Ok st /\
+      map fst (open_tags (fst (xread st))) =
+        map (fun p => tag_name (xc_o x) (snd p)) (idenote (mc_inline (xc_m x)) (mc_context_name (xc_m x)) xs) /\
+      map snd (open_tags (fst (xread st))) =
+        map (fun p => sh_attr_text (xc_o x) (snd p)) (unrollS xs).
+Proof. exact expand_implicit_attrs. Qed.
+Print Assumptions C01_expand_implicit_attributes.
+
+(* the formatter level it rests on (all trees of elements without text, all attribute lists with
+   plain forms): the chunks read to the open/close sequence of the forest, every open tag with
+   the attribute text of the decision table *)
+Theorem C01_format_open_tags :
+  forall (c : oconfig), cfg_clean c = true ->
+  forall (forest : list anode), forallb (fnode c) forest = true ->
+    xread (html_format c forest) = (flat_map (xtree c) forest, None).
+Proof. exact format_xtags. Qed.
+Print Assumptions C01_format_open_tags.
 
 (* the documented rule = the model's lookup (emmet/markup/implicit_tag.py over the regenerated
    ELEMENT_MAP and the configuration's inline list), for every parent that is not an undocumented
@@ -186,6 +220,30 @@ Example C01_implicit_context_groups :
   match expand_markup (exi None false) (render4 e2) with
   | Ok st => os_value (fs_out st) =
       S "<ol><li class=""a""><em class=""x""><span class=""y""></span></em></li><li class=""a""><em class=""x""><span class=""y""></span></em></li><li id=""z""></li></ol>"
+  | _ => False
+  end.
+Proof. vm_compute. repeat split; reflexivity. Qed.
+
+(* the attribute text: ` class="item"`, ` id="x"`; with single quotes and upper-case attribute names: ` CLASS='item'` *)
+Example C01_implicit_attr_text_default :
+  sh_attr_text (exi_o true "html") (S ".item") = S " class=""item""" /\
+  sh_attr_text (exi_o true "html") (S "#x") = S " id=""x""" /\
+  sh_attr_text (exi_o true "html") [] = [] /\
+  sh_attr_text (mkOconfig (mkOfmt [c_tab] [] [c_nl]) [] (S "upper") (S "single") true false [] [] 3 false [] (S "xhtml") [] false [] [] [] false None None)
+               (S ".item") = S " CLASS='item'".
+Proof. vm_compute. repeat split; reflexivity. Qed.
+
+(* "ol>(.a>em.x>.y)*2+#z": open tags with their attribute text, read off the chunks *)
+Example C01_implicit_attrs_nonvacuous :
+  let e2 := [(IE (S "ol") None None, SChild);
+             (IG [(IE [] (cls "a") None, SChild); (IE (S "em") (cls "x") None, SChild); (IE [] (cls "y") None, SSibling)] (Some (S "2")), SSibling);
+             (IE [] (idn "z") None, SSibling)] in
+  impl_attr_ok (exi None true) e2 = true /\
+  unrollS e2 = [(0, []); (1, S ".a"); (2, S ".x"); (3, S ".y"); (1, S ".a"); (2, S ".x"); (3, S ".y"); (1, S "#z")] /\
+  match expand_markup (exi None true) (render4 e2) with
+  | Ok st => open_tags (fst (xread st)) =
+      [(S "ol", []); (S "li", S " class=""a"""); (S "em", S " class=""x"""); (S "span", S " class=""y""");
+       (S "li", S " class=""a"""); (S "em", S " class=""x"""); (S "span", S " class=""y"""); (S "li", S " id=""z""")]
   | _ => False
   end.
 Proof. vm_compute. repeat split; reflexivity. Qed.
